@@ -27,7 +27,7 @@ CHECKS.append({
     "property_id": "C11",
     "text": "Coq theorems over an executable model of the #if automaton (ConditionChain + preprocess_command gating): for every well-nested directive tree of any depth and any number of #elif groups, every macro environment and every truth assignment to well-formed conditions, the automaton emits exactly the text and final macro environment of C's conditional-group semantics (directives in unselected groups have no effect), and every line sequence is rejected iff it is unbalanced, with the matching diagnostic. The transition table, BinOp::apply and the per-level operator tokens are regenerated from the source each run; the condition parser model and the whole line model are compared with the real preprocessor on all directive sequences up to length 4 (quick) / 6 (thorough) over the property's alphabet, random nested trees and random condition expressions.",
     "design_ref": "DESIGN.md §4 C11",
-    "note": "Trusted: Coq kernel, the reference semantics sem_item/sem_tail and scan in coq/model/Cond.v, translator, extraction + drivers. Conditions enter the model pre-tokenised; macros inside conditions are numeric/empty object-like macros only. The condition parser's correctness w.r.t. ceval is checked by correspondence and an independent Python evaluator, not yet by a Coq theorem.",
+    "note": "Trusted: Coq kernel, the reference semantics sem_item/sem_tail and scan in coq/model/Cond.v, translator, extraction + drivers. Conditions enter the model pre-tokenised; macros inside conditions are numeric/empty object-like macros only. The condition parser is proved to invert the minimal-parenthesis printer for every condition tree (C11_cond_parser_correct); `defined`/macro substitution inside conditions is compared, not proved.",
     "technique": "Coq proof (mutual induction over directive trees; induction over line lists) + regenerated tables + model/implementation correspondence",
 })
 
